@@ -42,4 +42,40 @@ var props = map[string]*propCfg{
 		RequiredProbes: []string{"tasks_interleaved_inside_an_op"},
 		FaultKinds:     []string{"preempt", "pool_flush", "map_permute"},
 	},
+	"C20": {
+		ID: "C20", Scenario: "sessions", Race: false,
+		QuickRuns: 40000, ThorRuns: 3000000, QuickChunk: 500, ThorChunk: 5000, ChunkTimeoS: 600,
+		Rule: "one evaluation = one simulated run: 1-6 runners (on 1-3 task goroutines; with more than one task the token scheduler interleaves them at statement level) each executing a seed-derived history of SETTHIS / SETVAL / EVAL / STORE / FETCH / PROBE operations; formulas come from the model grammar (literals, names, $locals, assignment, comma, arrays, parentheses, conditionals, small-integer +, same-kind ===, calls to recording / put / get / failing host stubs) and are generated against the model's current state; every result, every get, the host-call order and the caller's data are compared with the two-map reference model after every op; single host faults are enumerated at every call position on clones of the current state. Non-trivial: at least one evaluation and (several evaluations, several runners, or an aborted evaluation); distinct = distinct hash of the complete op histories.",
+		Assumptions: []string{
+			"the reference model is written from the statement; where the statement is silent (does an evaluation that returned an error keep the locals it had assigned?) each such local may hold its old or its new value and the model resynchronises by reading it",
+			"formulas stay inside the fragment whose meaning the statements fix; null is not passed to host stubs while the C11 null-argument finding is open",
+			"a clean batch is evidence, not proof",
+		},
+		RequiredProbes: []string{"evaluations", "aborted_evaluation_with_pending_locals", "set_entry_on_runner_without_map", "shadow_fault_evaluations"},
+		FaultKinds:     []string{"host_error", "preempt", "aux_reentry (put/get stubs)"},
+	},
+	"C07": {
+		ID: "C07", Scenario: "sessions", Race: false,
+		QuickRuns: 40000, ThorRuns: 3000000, QuickChunk: 500, ThorChunk: 5000, ChunkTimeoS: 600,
+		Rule: "one evaluation = one simulated run, of two kinds chosen by the tape: (a) a sessions history as for C20 (binding, sequencing, persistence across evaluations, forbidden assignment targets, host-visible evaluation order, all against the store-passing reference evaluator, with enumerated host faults); (b) a frame run: 1-10 formulas of the broad grammar (all operators and builtins) over a data map holding decimals, nested maps, slices, structs and times, each evaluated on fresh state without fault, with a fault at every host-call position, and on a history runner, with a deep snapshot of all non-$ caller data compared before and after. Distinct = distinct hash of histories / outcomes.",
+		Assumptions: []string{
+			"side-effecting sub-expressions are generated only where the statement fixes the order (comma, array elements, call arguments, condition before branch, assignment right-hand side)",
+			"after an evaluation that returned an error each local it had assigned may hold its old or its new value",
+			"a clean batch is evidence, not proof",
+		},
+		RequiredProbes: []string{"evaluations", "aborted_evaluation_with_pending_locals", "frame_evaluations", "frame_checked_after_aborted_evaluation", "evaluation_assigns_locals"},
+		FaultKinds:     []string{"host_error", "preempt"},
+	},
+	"C08": {
+		ID: "C08", Scenario: "purity", Race: false,
+		QuickRuns: 24000, ThorRuns: 1500000, QuickChunk: 400, ThorChunk: 4000, ChunkTimeoS: 600,
+		Rule: "one evaluation = one simulated run: a history of 5-200 operations (REPEAT_EVAL of a corpus entry with a fresh runner and fresh equal data, REPARSE, FIELDS, unrelated NOISE formulas, POOL_FLUSH, CLOCK_JUMP) on one task or on 2-4 tasks interleaved at statement level, under a fresh map-iteration order for every repetition and a seed-chosen process zone. Every repetition is compared with the baseline the worker process computed in pristine state at start (and baselines are compared across the ~60 worker processes); trees are deep-dumped (all fields, exported or not) after every evaluation and analysis. Non-trivial: at least two repeated evaluations in the history; distinct = distinct hash of the op scripts.",
+		Assumptions: []string{
+			"`now` and `toDay` are excluded as the statement says; formulas using `date` are compared only under the baseline's process zone",
+			"field lists are compared as sets",
+			"a clean batch is evidence, not proof",
+		},
+		RequiredProbes: []string{"repeated_evaluations"},
+		FaultKinds:     []string{"map_permute", "pool_flush", "clock_jump", "zone_switch", "preempt"},
+	},
 }
